@@ -1273,6 +1273,12 @@ class H2Stream:
                 headers, hdr_validation_flags
             )
 
+        # The steps above are lazy generators. Run them to completion before
+        # the encoder sees anything: encoding changes the compression context
+        # irreversibly, so a header list that is going to be refused must be
+        # refused first.
+        headers = list(headers)
+
         encoded_headers = encoder.encode(headers)
 
         # Slice into blocks of max_outbound_frame_size. Be careful with this:
